@@ -15,7 +15,7 @@ import (
 
 func init() { Registry["C08"] = C08 }
 
-var c08Paths = []string{"print", "assign", "concat", "compare", "argument", "argument-direct", "return", "slice-store-literal", "slice-store-assign", "range", "subscript", "len", "write-read"}
+var c08Paths = []string{"print", "assign", "concat", "concat-direct", "compare", "compare-var-right", "argument", "argument-direct", "return", "slice-store-literal", "slice-store-assign", "range", "subscript", "len", "write-read"}
 var c08Origins = []string{"literal", "file", "stdin", "command", "stdin-in-function"}
 var c08Positions = []string{"only", "first", "middle", "last"}
 
@@ -80,6 +80,28 @@ func c08Program(v, path, origin string) (src string, stdin string, pre map[strin
 			ne = "0"
 		}
 		wantOut = "1 0 0 " + ne + "\n"
+	case "concat-direct":
+		// the literal is written directly as an operand of + (only meaningful for a literal)
+		if origin != "literal" {
+			return "", "", nil, "", nil, false
+		}
+		b.WriteString("a := \"A\"\nw := \"<\" + " + q(v) + " + \">\"\nw += " + q(v) + "\nprint(w)\nprint(a + " + q(v) + " + a, len(" + q(v) + " + a))\n")
+		wantOut = "<" + v + ">" + v + "\n" + "A" + v + "A " + fmt.Sprint(len(v)+1) + "\n"
+	case "compare-var-right":
+		// the value is the RIGHT operand, held in a variable (a pattern position of [[ ]])
+		b01 := func(c bool) string {
+			if c {
+				return "1"
+			}
+			return "0"
+		}
+		b.WriteString("w := v\nprint(\"k\" == w, \"kk\" != w, v == w, w != v, \"report.txt\" == w)\nswitch \"k\" {\ncase w:\n\tprint(\"case\")\ndefault:\n\tprint(\"default\")\n}\n")
+		wantOut = b01(v == "k") + " " + b01(v != "kk") + " 1 0 " + b01(v == "report.txt") + "\n"
+		if v == "k" {
+			wantOut += "case\n"
+		} else {
+			wantOut += "default\n"
+		}
 	case "argument":
 		b.WriteString("func show(a string) {\n\tprint(\"S\", a, \"E\")\n}\nshow(v)\n")
 		wantOut = frame(v)
@@ -336,6 +358,7 @@ func C08() int {
 	}
 	var mu sync.Mutex
 	done, skipped, failing, capped := 0, 0, 0, false
+	transient := 0
 	distinct := findings.NewDistinct()
 	failTable := map[string][]string{} // set key -> failing members (for triage output)
 	symCount := map[string]int{}
@@ -368,6 +391,13 @@ func C08() int {
 		// replay once more: identical symptom required
 		sym2, _, _, _ := c08Judge(c)
 		if sym2 != sym {
+			// a run killed by the sandbox limits on an overloaded machine is believed only if it repeats
+			if sym3, _, _, _ := c08Judge(c); sym == "runaway" && sym2 == "" && sym3 == "" {
+				mu.Lock()
+				transient++
+				mu.Unlock()
+				return
+			}
 			panic(fmt.Sprintf("HARNESS ERROR: c08 cell not deterministic: %s (%s vs %s)", c.exactKey, sym, sym2))
 		}
 		mu.Lock()
@@ -422,10 +452,11 @@ func C08() int {
 	r.Set("cells_failing_incl_known", failing)
 	r.Set("failing_by_symptom", sc)
 	r.Set("cells_skipped_not_expressible", skipped)
+	r.Set("sandbox_kills_not_reproduced_on_two_reruns", transient)
 	r.Set("evaluations", done)
 	r.Set("distinct_nontrivial", distinct.Len())
 	r.Set("exhaustive", !capped)
-	r.Set("rule", "cell table: every printable ASCII character plus \\n and \\t (97) x position {only, first, middle, last} x 13 data paths x 5 origins on Bash (literal, read from file, standard input, command output, standard input read inside a function) plus the literal origin on the Batch target under the cmd.exe model (runs the model does not decide are skipped and counted), one program per cell, observed by framed prints and by listing/reading the sandbox afterwards (no file may appear that the program did not write; written files must hold the exact bytes); plus a list of multi-character hazards on every path/origin and all strings of length 2 over the alphabet on the three most exposed paths (replaces the property's random strings: sampling is outside this technique). Distinct by (value, path, origin).")
+	r.Set("rule", "cell table: every printable ASCII character plus \\n and \\t (97) x position {only, first, middle, last} x 15 data paths x 5 origins on Bash (literal, read from file, standard input, command output, standard input read inside a function) plus the literal origin on the Batch target under the cmd.exe model (runs the model does not decide are skipped and counted), one program per cell, observed by framed prints and by listing/reading the sandbox afterwards (no file may appear that the program did not write; written files must hold the exact bytes); plus a list of multi-character hazards on every path/origin and all strings of length 2 over the alphabet on the three most exposed paths (replaces the property's random strings: sampling is outside this technique). Distinct by (value, path, origin).")
 	r.Assumef("known findings are listed per (path, origin, position) with the exact set of failing characters; a failing 2-character string is attributed to a listed single-character cell of one of its characters, anything else is a violation")
 	return r.Finish()
 }
